@@ -342,6 +342,15 @@ func (bs *blockState) lval(v ssa.Value) lvalue {
 }
 
 func (bs *blockState) load(lv lvalue, ins ssa.Instruction) Val {
+	v := bs.load0(lv, ins)
+	if lv.kind != "cell" {
+		// every stored Go value is within the range of its type
+		bs.e.assume(bs.g, bs.e.typeFacts(v))
+	}
+	return v
+}
+
+func (bs *blockState) load0(lv lvalue, ins ssa.Instruction) Val {
 	e := bs.e
 	switch lv.kind {
 	case "cell":
